@@ -1,4 +1,4 @@
-CONSTANTS Keys = {"k1","k2","k3"}  Vals = {1,2}  Ttls = {1}  MaxT = 9  MaxCp = 2  MaxOps = 4  MaxIds = 5  UniqueIds = TRUE
+CONSTANTS Keys = {"k1","k2","k3"}  Vals = {1,2}  Ttls = {1}  MaxT = 9  MaxCp = 2  MaxOps = 4  MaxIds = 5  DefTtl = 0  UniqueIds = TRUE
 INIT Init
 NEXT NextAtomic
 VIEW View
